@@ -85,7 +85,9 @@ static void run_config(const Config & c, uint64_t seed, long n_iid, int n_grid)
   }
   if (accepted_ref && accepted_port) {
     if (rd0 != pd0) record(st.mm, lab + "|init-draws", fmt("initialisation consumed %zu (reference) vs %zu (port) deviates", rd0, pd0));
-    if (std::fabs(rtoall - pars.toallevents) > 1e-9 * std::fabs(rtoall))
+    // 1e-6: the reference's integrands clamp energies below 50 eV in place (see the recorded finding), which
+    // perturbs the windowed quadrature at the 1e-8 level; a wrong integrand or bound is >= 1e-3
+    if (std::fabs(rtoall - pars.toallevents) > 1e-6 * std::fabs(rtoall))
       record(st.mm, lab + "|toallevents", fmt("toallevents reference %.12g, port %.12g", rtoall, pars.toallevents));
     if (std::fabs(re1 - pars.ebb1) > 1e-12 || std::fabs(re2 - pars.ebb2) > 1e-12)
       record(st.mm, lab + "|range", fmt("clamped range reference [%.12g,%.12g], port [%.12g,%.12g]", re1, re2, pars.ebb1, pars.ebb2));
